@@ -178,3 +178,174 @@ def normalise(facts):
 
 def write_known(names):
     json.dump(sorted(names), open(KNOWN, 'w'), indent=0)
+
+
+# ---------------------------------------------------------------------------------------------------------------
+# iterator adaptors that are loops in disguise: `it.try_for_each(|x| ..)` / `it.for_each(|x| ..)` become an explicit
+# loop around the inlined closure body, so that rules about loops (per-mirror writes, codec sequences, error
+# propagation out of the loop) see the same shape as with `for x in it { .. }`
+
+LOOP_ADAPTORS = ('Iterator::try_for_each', 'Iterator::for_each')
+
+
+def _type_index(types, pred, make):
+    for i, t in enumerate(types):
+        if pred(t):
+            return i
+    types.append(make())
+    return len(types) - 1
+
+
+def _closure_def_of(fn, operand):
+    p = operand.get('m') or operand.get('c')
+    if p is None or p['p']:
+        return None, None
+    defs = [s for b in fn.blocks for s in b['stmts']
+            if s['k'] == 'assign' and s['lhs']['l'] == p['l'] and not s['lhs']['p']]
+    if len(defs) != 1:
+        return None, None
+    rv = defs[0]['rv']
+    if rv['k'] == 'agg' and rv.get('ak') == 'closure':
+        return rv['def'], p['l']
+    return None, None
+
+
+def loopify(facts, fn, blk, known):
+    t = fn.blocks[blk]['term']
+    callee = t.get('callee') or ''
+    is_try = callee.endswith('Iterator::try_for_each')
+    cdef, clo_local = _closure_def_of(fn, t['args'][1])
+    cf = facts.fns.get(cdef) if cdef else None
+    if cf is None or cf.argc != 2 or len(cf.blocks) > MAX_BLOCKS or t.get('ret') is None:
+        return False
+    types = fn.types
+    span = t['span']
+    it_op = t['args'][0]
+    it_p = it_op.get('m') or it_op.get('c')
+    if it_p is None or it_p['p']:
+        return False
+    it_ty = fn.locals[it_p['l']]['ty']
+    item_ty = cf.locals[2]['ty']
+    ret_ty = cf.locals[0]['ty']
+    env_ty = cf.locals[1]['ty']
+    env_is_ref = types[env_ty].get('k') == 'ref'
+    ref_it_ty = _type_index(types, lambda x: x.get('k') == 'ref' and x.get('mut') and x.get('to') == it_ty,
+                            lambda: {'s': '&mut <iter>', 'k': 'ref', 'to': it_ty, 'mut': True})
+    opt_ty = _type_index(types, lambda x: x.get('path') == 'core::option::Option' and x.get('args') == [item_ty],
+                         lambda: {'s': 'Option<item>', 'k': 'adt', 'path': 'core::option::Option', 'args': [item_ty]})
+    isize_ty = _type_index(types, lambda x: x.get('k') == 'int' and x.get('bits') == 64 and x.get('signed'),
+                           lambda: {'s': 'isize', 'k': 'int', 'bits': 64, 'signed': True, 'ptr': True})
+    unit_ty = _type_index(types, lambda x: x.get('k') == 'tuple' and not x.get('of'), lambda: {'s': '()', 'k': 'tuple', 'of': []})
+
+    def new_local(ty, name=None):
+        fn.locals.append({'ty': ty, 'name': name})
+        return len(fn.locals) - 1
+
+    L_it = new_local(it_ty)
+    L_itref = new_local(ref_it_ty)
+    L_x = new_local(opt_ty)
+    L_d = new_local(isize_ty)
+    L_item = new_local(item_ty)
+    L_env = new_local(env_ty)
+    L_r = new_local(ret_ty)
+    L_dr = new_local(isize_ty)
+    pl = lambda l, proj=None: {'l': l, 'p': proj or []}
+    mv = lambda l, proj=None: {'m': pl(l, proj)}
+    base = len(fn.blocks)
+    H, N, S, K, X, E, U = base, base + 1, base + 2, base + 3, base + 4, base + 5, base + 6
+    asg = lambda lhs, rv: {'k': 'assign', 'lhs': lhs, 'rv': rv, 'span': span}
+    blocks = []
+    # H: x = next(&mut it)
+    blocks.append({'cleanup': False, 'stmts': [asg(pl(L_itref), {'k': 'ref', 'mut': True, 'p': pl(L_it)})],
+                   'term': {'k': 'call', 'callee': 'core::iter::traits::iterator::Iterator::next', 'callee_crate': 'core',
+                            'args': [mv(L_itref)], 'dest': pl(L_x), 'dest_ty': opt_ty, 'ret': N, 'span': span,
+                            'unwind': None, 'func': None, 'gargs': [it_ty], 'synthetic': True}})
+    # N: switch discr(x)
+    blocks.append({'cleanup': False, 'stmts': [asg(pl(L_d), {'k': 'discr', 'p': pl(L_x)})],
+                   'term': {'k': 'switch', 'discr': mv(L_d), 'targets': [[0, E], [1, S]], 'otherwise': U, 'span': span}})
+    # S: item = (x as Some).0 ; env = &mut closure ; r = closure(env, item)
+    env_rv = {'k': 'ref', 'mut': bool(types[env_ty].get('mut')), 'p': pl(clo_local)} if env_is_ref else \
+        {'k': 'use', 'a': {'c': pl(clo_local)}}
+    blocks.append({'cleanup': False,
+                   'stmts': [asg(pl(L_item), {'k': 'use', 'a': mv(L_x, [{'vi': 1, 'dc': 'Some'}, {'f': 0, 'n': '0'}])}),
+                             asg(pl(L_env), env_rv)],
+                   'term': {'k': 'call', 'callee': cdef, 'callee_crate': 'fatfs', 'args': [mv(L_env), mv(L_item)],
+                            'dest': pl(L_r), 'dest_ty': ret_ty, 'ret': K, 'span': span, 'unwind': None, 'func': None,
+                            'gargs': [], 'synthetic': True}})
+    # K: continue or leave
+    if is_try:
+        blocks.append({'cleanup': False, 'stmts': [asg(pl(L_dr), {'k': 'discr', 'p': pl(L_r)})],
+                       'term': {'k': 'switch', 'discr': mv(L_dr), 'targets': [[0, H]], 'otherwise': X, 'span': span}})
+    else:
+        blocks.append({'cleanup': False, 'stmts': [], 'term': {'k': 'goto', 'ret': H, 'span': span}})
+    # X: dest = r (the closure's Err / Break is what try_for_each returns)
+    blocks.append({'cleanup': False, 'stmts': [asg(copy.deepcopy(t['dest']), {'k': 'use', 'a': mv(L_r)})],
+                   'term': {'k': 'goto', 'ret': t['ret'], 'span': span}})
+    # E: exhausted: dest = Ok(()) / ()
+    unit = {'k': {'ty': unit_ty, 's': '()', 'val': None}}
+    if is_try:
+        rty = types[ret_ty]
+        e_rv = {'k': 'agg', 'ak': 'adt', 'adt': rty.get('path') or 'core::result::Result', 'variant': 'Ok', 'vi': 0,
+                'ops': [unit], 'fields': []}
+    else:
+        e_rv = {'k': 'use', 'a': unit}
+    blocks.append({'cleanup': False, 'stmts': [asg(copy.deepcopy(t['dest']), e_rv)],
+                   'term': {'k': 'goto', 'ret': t['ret'], 'span': span}})
+    blocks.append({'cleanup': False, 'stmts': [], 'term': {'k': 'unreachable', 'span': span}})
+    fn.blocks.extend(blocks)
+    # original block: it = move iterator ; goto H
+    fn.blocks[blk]['stmts'].append(asg(pl(L_it), {'k': 'use', 'a': copy.deepcopy(it_op)}))
+    fn.blocks[blk]['term'] = {'k': 'goto', 'ret': H, 'span': span, 'loopified': callee}
+    fn._succ = fn._pred = fn._dom = fn._pdom = fn._reach = None
+    fn.__dict__.pop('_bool_switch_cache', None)
+    # closure instances reached from this call through the adaptor's own (core) instances
+    clo_insts = {}
+    for iid in facts.insts_of.get(fn.name, []):
+        seen, work, found = set(), [c for c, k in facts.edge_at.get((iid, blk), ())], []
+        while work:
+            x = work.pop()
+            if x in seen:
+                continue
+            seen.add(x)
+            if facts.instances[x]['fn'] == cdef:
+                found.append(x)
+                continue
+            if facts.instances[x]['crate'] in ('core', 'alloc'):
+                work += [c for _b, c, _k in facts.out_edges.get(x, ())]
+        clo_insts[iid] = found
+        for ci in found:
+            facts.out_edges[iid].append((S, ci, 'call'))
+            facts.in_edges[ci].append((iid, S, 'call'))
+            facts.edge_at[(iid, S)].append((ci, 'call'))
+    # now the closure call at S is an ordinary direct call: inline it
+    bmap = inline_call(facts, fn, S, cf)
+    facts.inlined.setdefault(cdef, []).append((fn.name, S))
+    for iid, cis in clo_insts.items():
+        for ci in cis:
+            for cb, tgt, kind in list(facts.out_edges.get(ci, ())):
+                nb = bmap.get(cb)
+                if nb is not None:
+                    facts.out_edges[iid].append((nb, tgt, kind))
+                    facts.in_edges[tgt].append((iid, nb, kind))
+                    facts.edge_at[(iid, nb)].append((tgt, kind))
+    cf.crate = 'fatfs-inlined'
+    return True
+
+
+def normalise_loops(facts):
+    known = load_known()
+    if known is None:
+        return
+    for n, f in list(facts.fns.items()):
+        if f.crate != 'fatfs':
+            continue
+        for bi in range(len(f.blocks)):
+            t = f.blocks[bi]['term']
+            if t['k'] == 'call' and (t.get('callee') or '').endswith(LOOP_ADAPTORS) and len(t.get('args') or []) == 2:
+                cdef, _l = _closure_def_of(f, t['args'][1])
+                # only closures the pinned tree does not have (a loop that was turned into an adaptor call)
+                if cdef and cdef not in known:
+                    try:
+                        loopify(facts, f, bi, known)
+                    except Exception:
+                        pass
